@@ -72,3 +72,89 @@ package invoices
 //@   requires inv.State <= ContractAccepted
 //@   site call updateLegacy: assert ctx.mpp == nil && ctx.pathID == nil && ctx.amp == nil && arg(ctx) == ctx && arg(inv) == inv
 //@   site call updateMpp: assert (ctx.mpp != nil || ctx.pathID != nil) && arg(ctx) == ctx && arg(inv) == inv
+//@
+//@ func getUpdatedInvoiceState
+//@   props C15
+//@   ensures result1 == nil ==> result0 != nil && *result0 == update.NewState
+//@   ensures result1 == nil ==> update.NewState != ContractOpen
+//@   ensures result1 == nil ==> invoice.State == ContractOpen || invoice.State == ContractAccepted
+//@   ensures result1 == nil && invoice.State == ContractAccepted ==> update.NewState != ContractAccepted
+//@   ensures result1 == nil && update.NewState != ContractCanceled ==> ret(len) != 0
+//@   ensures result1 == nil && update.NewState != ContractCanceled && update.SetID == nil && update.Preimage != nil ==>
+//@           hash != nil && ret(Hash) == *hash
+//@   ensures result1 == nil && update.NewState == ContractSettled && update.SetID == nil && update.Preimage == nil ==>
+//@           invoice.Terms.PaymentPreimage != nil
+//@   ensures result1 == nil && update.NewState != ContractCanceled && update.SetID != nil ==> update.Preimage == nil
+//@   site call HTLCSet: assert arg(0) == invoice && arg(setID) == update.SetID && arg(state) == HtlcStateAccepted
+//@   site call Hash: assert arg(0) == update.Preimage
+//@
+//@ func getUpdatedHtlcState
+//@   props C15
+//@   ensures result2 == nil && result0 ==>
+//@           (invoiceState == ContractSettled && result1 == HtlcStateSettled && htlc.State == HtlcStateAccepted) ||
+//@           (invoiceState == ContractCanceled && result1 == HtlcStateCanceled && htlc.State != HtlcStateCanceled && htlc.State != HtlcStateSettled)
+//@   ensures htlc.State == HtlcStateSettled ==> !result0
+//@   ensures htlc.State == HtlcStateCanceled ==> !result0
+//@   ensures htlc.State == HtlcStateSettled && invoiceState != ContractSettled ==> result2 != nil
+//@   ensures result2 == nil && !result0 && invoiceState != ContractAccepted ==> result1 == htlc.State || invoiceState == ContractCanceled
+//@   site call IsInHTLCSet: assert arg(0) == htlc && arg(setID) == setID
+//@   site call Matches: assert arg(0) == htlc.AMP.Preimage && arg(1) == htlc.AMP.Hash
+//@
+//@ func canCancelSingleHtlc
+//@   props C15
+//@   ensures result == nil <==> (invoiceState == ContractOpen && htlc.State == HtlcStateAccepted)
+//@
+//@ func resolveHtlc
+//@   props C15
+//@   ensures result == nil ==> htlc.State == state
+//@   ensures result != nil ==> htlc.State == old(htlc.State)
+//@   site store InvoiceHTLC.State: assert ret(ResolveHtlc) == nil && value == state
+//@   site call ResolveHtlc: assert arg(1) == circuitKey && arg(2) == state
+//@
+//@ func updateInvoiceAmtPaid
+//@   props C15
+//@   ensures result == nil ==> invoice.AmtPaid == amt
+//@   site store Invoice.AmtPaid: assert ret(UpdateInvoiceAmtPaid) == nil && value == amt
+//@   site call UpdateInvoiceAmtPaid: assert arg(1) == amt
+//@
+//@ func settleHodlInvoice
+//@   props C15
+//@   loop 0 step amtPaid == wrap(prev(amtPaid) + ite(retn(getUpdatedHtlcState, 0), htlc.Amt, 0), 64)
+//@   site call getUpdatedInvoiceState: assert arg(invoice) == invoice && arg(hash) == hash && arg(update) == *update &&
+//@        invoice.HodlInvoice && update.NewState == ContractSettled && update.Preimage != nil
+//@   site store Invoice.State: assert value == ContractSettled && retn(getUpdatedInvoiceState, 1) == nil &&
+//@        *retn(getUpdatedInvoiceState, 0) == ContractSettled && ret(UpdateInvoiceState) == nil
+//@   site call getUpdatedHtlcState: assert arg(htlc) == htlc && arg(invoiceState) == ContractSettled && arg(setID) == nil
+//@   site call resolveHtlc: assert retn(getUpdatedHtlcState, 0) && retn(getUpdatedHtlcState, 2) == nil &&
+//@        arg(htlc) == htlc && arg(state) == HtlcStateSettled && arg(circuitKey) == key
+//@   site call updateInvoiceAmtPaid: assert arg(amt) == amtPaid && arg(invoice) == invoice
+//@
+//@ func cancelInvoice
+//@   props C15
+//@   loop * havoc
+//@   site store Invoice.State: assert value == ContractCanceled && retn(getUpdatedInvoiceState, 1) == nil &&
+//@        *retn(getUpdatedInvoiceState, 0) == ContractCanceled && ret(UpdateInvoiceState) == nil
+//@   site call getUpdatedHtlcState: assert arg(htlc) == htlc && arg(invoiceState) == ContractCanceled
+//@   site call resolveHtlc: assert retn(getUpdatedHtlcState, 0) && retn(getUpdatedHtlcState, 2) == nil &&
+//@        arg(htlc) == htlc && arg(state) == HtlcStateCanceled && arg(circuitKey) == key
+//@
+//@ func cancelHTLCs
+//@   props C15
+//@   loop * havoc
+//@   site call canCancelSingleHtlc: assert arg(htlc) == htlc && arg(invoiceState) == invoice.State && exists
+//@   site call resolveHtlc: assert ret(canCancelSingleHtlc) == nil && arg(htlc) == htlc && arg(state) == HtlcStateCanceled &&
+//@        arg(circuitKey) == key
+//@
+//@ func addHTLCs
+//@   props C15
+//@   loop * havoc
+//@   loop 1 step !invoiceIsAMP ==> amtPaid == wrap(prev(amtPaid) +
+//@        ite(invoice.State != ContractOpen && (htlc.State == HtlcStateAccepted || htlc.State == HtlcStateSettled), htlc.Amt, 0), 64)
+//@   site store Invoice.State: assert retn(getUpdatedInvoiceState, 1) == nil && value == *retn(getUpdatedInvoiceState, 0) &&
+//@        ret(UpdateInvoiceState) == nil
+//@   site call getUpdatedInvoiceState: assert arg(invoice) == invoice && arg(hash) == hash && arg(update) == *update.State
+//@   site call getUpdatedHtlcState: assert arg(htlc) == htlc && arg(setID) == setID &&
+//@        arg(invoiceState) == ite(settleEligibleAMP, ContractSettled, invoice.State)
+//@   site call resolveHtlc: assert retn(getUpdatedHtlcState, 0) && retn(getUpdatedHtlcState, 2) == nil &&
+//@        arg(htlc) == htlc && arg(state) == retn(getUpdatedHtlcState, 1) && arg(circuitKey) == key
+//@   site call updateInvoiceAmtPaid: assert arg(invoice) == invoice && arg(amt) == amtPaid
